@@ -33,7 +33,14 @@ var ErrWalk = errors.New("ref: walk leaves the packet")
 
 // WalkTWCC expands b (a whole TWCC packet starting at its common header). limit is the
 // number of octets the walk may use: min(len(b), declared length).
-func WalkTWCC(b []byte) (*TWCCWalk, error) {
+// WalkTWCC follows the reading "every received symbol announced by the chunks has a delta"
+// (vector chunks in full). WalkTWCCClipped follows the other reading the statement allows: only
+// the first Count statuses are packets, so only they have deltas.
+func WalkTWCCClipped(b []byte) (*TWCCWalk, error) { return walkTWCC(b, true) }
+
+func WalkTWCC(b []byte) (*TWCCWalk, error) { return walkTWCC(b, false) }
+
+func walkTWCC(b []byte, clipVectors bool) (*TWCCWalk, error) {
 	if len(b) < 20 {
 		return nil, ErrWalk
 	}
@@ -84,6 +91,9 @@ func WalkTWCC(b []byte) (*TWCCWalk, error) {
 	}
 	w.ChunksEnd = pos
 	for i, s := range w.Symbols {
+		if clipVectors && i >= int(w.Count) {
+			break
+		}
 		switch s {
 		case 1:
 			if pos+1 > limit {
